@@ -301,9 +301,144 @@ def rule_e(ctx):
             'the picker yields something other than the head of the queue / its next fragment')
 
 
+def _search_shape(fn):
+    """(iterated expr, set of normalised conjuncts, loop variable) of a function that answers "does any element of X
+    satisfy C" either as `return any(C for v in X)` or as an explicit loop returning True / False; None otherwise."""
+    from ..astutil import resolve_temp
+
+    def noise(n):
+        if isinstance(n, ast.Expr) and isinstance(n.value, ast.Constant):
+            return True
+        if isinstance(n, ast.Expr) and isinstance(n.value, ast.Call):
+            t = ast.unparse(n.value.func)
+            if all(isinstance(a, ast.Constant) for a in n.value.args) and t in ('len', 'print', 'repr', 'str'):
+                return True
+            return t.startswith(('logger()', 'logging.', 'log.', 'print'))
+        return False
+
+    body = [n for n in fn.node.body if not noise(n)]
+    # `tmp = <expr>; return tmp`
+    if len(body) == 2 and isinstance(body[0], ast.Assign) and isinstance(body[1], ast.Return) and \
+            isinstance(body[1].value, ast.Name) and len(body[0].targets) == 1 and \
+            isinstance(body[0].targets[0], ast.Name) and body[0].targets[0].id == body[1].value.id:
+        body = [ast.Return(value=body[0].value)]
+
+    def conj(e, neg=False):
+        if isinstance(e, ast.BoolOp) and isinstance(e.op, ast.And) and not neg:
+            out = set()
+            for v in e.values:
+                c = conj(v)
+                if c is None:
+                    return None
+                out |= c
+            return out
+        if isinstance(e, ast.UnaryOp) and isinstance(e.op, ast.Not):
+            inner = e.operand
+            if isinstance(inner, ast.Compare) and len(inner.ops) == 1 and isinstance(inner.ops[0], ast.Is):
+                return {'isnot:' + '|'.join(sorted([ast.unparse(inner.left), ast.unparse(inner.comparators[0])]))}
+            return {'not:' + ast.unparse(inner)}
+        if isinstance(e, ast.Compare) and len(e.ops) == 1 and isinstance(e.ops[0], (ast.IsNot, ast.Is)):
+            tag = 'isnot:' if isinstance(e.ops[0], ast.IsNot) else 'is:'
+            return {tag + '|'.join(sorted([ast.unparse(e.left), ast.unparse(e.comparators[0])]))}
+        return {'expr:' + ast.unparse(e)}
+
+    if len(body) == 1 and isinstance(body[0], ast.Return) and isinstance(body[0].value, ast.Call) and \
+            isinstance(body[0].value.func, ast.Name) and body[0].value.func.id == 'any' and \
+            len(body[0].value.args) == 1 and isinstance(body[0].value.args[0], (ast.GeneratorExp, ast.ListComp)):
+        g = body[0].value.args[0]
+        if len(g.generators) != 1 or not isinstance(g.generators[0].target, ast.Name):
+            return None
+        gen = g.generators[0]
+        c = conj(g.elt)
+        for cond in gen.ifs:
+            c2 = conj(cond)
+            if c is None or c2 is None:
+                return None
+            c |= c2
+        if c is not None and 'expr:True' in c and gen.ifs:
+            c.discard('expr:True')
+        return ast.unparse(gen.iter), c, gen.target.id
+    if len(body) == 2 and isinstance(body[0], ast.For) and isinstance(body[0].target, ast.Name) and \
+            not body[0].orelse and isinstance(body[1], ast.Return) and isinstance(body[1].value, ast.Constant) and \
+            body[1].value.value is False and len(body[0].body) == 1 and isinstance(body[0].body[0], ast.If) and \
+            not body[0].body[0].orelse and len(body[0].body[0].body) == 1 and \
+            isinstance(body[0].body[0].body[0], ast.Return) and \
+            isinstance(body[0].body[0].body[0].value, ast.Constant) and body[0].body[0].body[0].value.value is True:
+        return ast.unparse(body[0].iter), conj(body[0].body[0].test), body[0].target.id
+    return None
+
+
+def rule_f(ctx):
+    """The queue class gives the picker what it assumes: peek = the element the next get returns; any_other = some
+    queued element other than the given one satisfies the predicate."""
+    rep = ctx.report
+    qp = ctx.repo.cls('rsocket.queue_peekable:QueuePeekable')
+    pn = qp.lookup('peek_nowait')
+    pk = qp.lookup('peek')
+    ao = qp.lookup('any_other')
+    if pn is None or pk is None or ao is None:
+        raise AnalysisError('C05.f: QueuePeekable.peek / peek_nowait / any_other vanished')
+    # peek_nowait: empty -> raises; otherwise returns self._queue[0] (asyncio.Queue._get is self._queue.popleft())
+    ps = ctx.paths(pn, qp, inline_depth=0)
+    ok = bool(ps)
+    why = ''
+    n_ret = 0
+    for p in ps:
+        emp = [e for e in p.events if e.kind == 'cond' and e.data['key'][0] == 'truth' and
+               'empty' in repr(e.data['key'])]
+        if p.outcome == 'return':
+            n_ret += 1
+            t = strip_epoch(p.value.term)
+            head = t[0] == 'item' and strip_epoch(t[1]) == ('attr', ('self',), '_queue') and \
+                strip_epoch(t[2]) == ('const', 0)
+            if not head:
+                ok, why = False, 'peek_nowait returns %s, not self._queue[0]' % fmt_term(t)
+            if not emp or emp[-1].data['value'] is not False:
+                ok, why = False, 'peek_nowait reads the head without the queue being known non-empty'
+        elif p.outcome == 'raise':
+            if not emp or emp[-1].data['value'] is not True:
+                ok, why = False, 'peek_nowait raises although the queue is not empty'
+    rep.add('C05.f', 'QueuePeekable.peek_nowait / returns the element the next get returns', pn, ok and n_ret > 0,
+            why or 'self._queue[0] when not empty, QueueEmpty otherwise')
+    # peek: waits while empty, then peek_nowait()
+    ps = ctx.paths(pk, qp, inline_depth=0, no_inline={'peek_nowait'})
+    ok = True
+    why = ''
+    n_ret = 0
+    for p in ps:
+        if p.outcome != 'return':
+            continue
+        n_ret += 1
+        emp = [e for e in p.events if e.kind == 'cond' and e.data['key'][0] == 'truth' and
+               'empty' in repr(e.data['key'])]
+        calls = [e for e in p.events if e.kind == 'call' and e.data.get('name') == 'peek_nowait']
+        if not emp or emp[-1].data['value'] is not False:
+            ok, why = False, 'peek can return while the queue is empty'
+        if len(calls) != 1 or strip_epoch(p.value.term) != strip_epoch(calls[0].data['value'].term):
+            ok, why = False, 'peek does not return peek_nowait()'
+    rep.add('C05.f', 'QueuePeekable.peek / waits while empty, then the head', pk, ok and n_ret > 0,
+            why or 'returns peek_nowait() only after empty() was False (%d paths)' % n_ret)
+    # any_other
+    shape = _search_shape(ao)
+    params = ao.params()
+    ok = False
+    why = 'any_other is not a search over self._queue for an element other than the given one satisfying the predicate'
+    if shape is not None and len(params) == 3:
+        it, conjuncts, var = shape
+        want = {'isnot:' + '|'.join(sorted([var, params[1]])), 'expr:%s(%s)' % (params[2], var)}
+        if it == 'self._queue' and conjuncts == want:
+            ok = True
+        elif it != 'self._queue':
+            why = 'any_other searches %s, not the queued elements' % it
+        else:
+            why = 'any_other tests %s instead of "other is not item and predicate(other)"' % sorted(conjuncts or [])
+    rep.add('C05.f', 'QueuePeekable.any_other / some other queued element satisfies the predicate', ao, ok,
+            'any(other is not item and predicate(other) for other in self._queue)' if ok else why)
+
+
 def rule_d(ctx):
     from .c03 import rule_c as c03c
     c03c(ctx)
 
 
-RULES = [('C05.a', rule_a), ('C05.b', rule_b), ('C05.c', rule_c), ('C05.e', rule_e)]
+RULES = [('C05.a', rule_a), ('C05.b', rule_b), ('C05.c', rule_c), ('C05.e', rule_e), ('C05.f', rule_f)]
